@@ -1,24 +1,97 @@
+import PegVerif.Proofs.RefineTop
 import PegVerif.Proofs.SemLemmas
 /-
   C01 — the generated parser recognises exactly the grammar's PEG language.
 
-  Property theorems (this file holds statements only; proofs of helper lemmas are in Proofs/).
+  Property theorems (statements only; helper lemmas are in Proofs/).  `World P cfg env G inp`
+  collects what is assumed about the emitted program `P` (every function is the emission of its
+  rule's body, labels unique, `CheckAlwaysSucceeds` sound, AST mode, memoisation disabled — the
+  memo-enabled configuration is C06) and about the input (runes below the end symbol).
 -/
 namespace PegVerif
 
-/-- The PEG semantics assigns at most one outcome (verdict, consumed prefix, derivation forest,
-    attempted tokens) to an expression at a position: "succeeds exactly when" is well defined. -/
-theorem C01_semantics_deterministic {G ρ inp e p r1 ev1 r2 ev2}
+variable {P : Program} {cfg : Cfg} {env : CEnv} {G : Grammar} {inp : List Sym}
+
+/-- The PEG semantics assigns at most one outcome to an expression at a position, so "succeeds
+    exactly when" is well defined. -/
+theorem C01_semantics_deterministic {ρ e p r1 ev1 r2 ev2}
     (h1 : Eval G ρ inp e p r1 ev1) (h2 : Eval G ρ inp e p r2 ev2) : r1 = r2 ∧ ev1 = ev2 :=
   Eval_det h1 h2
 
 /-- The reference interpreter used as oracle by the differential checks is sound for the
     relational semantics, for every fuel. -/
-theorem C01_oracle_sound {G ρ inp} (fuel : Nat) (e : Expr) (p : Nat) (res : Res) (evs : List Token)
+theorem C01_oracle_sound {ρ} (fuel : Nat) (e : Expr) (p : Nat) (res : Res) (evs : List Token)
     (h : evalF G ρ inp fuel e p = some (res, evs)) : Eval G ρ inp e p res evs :=
   evalF_sound fuel e p res evs h
+
+/-- **C01** (for any rule `n` used as entry point, from a fresh parser): every run of the emitted
+    function of `n` returns `true` exactly when the PEG semantics of `n` matches a prefix, then the
+    position is the end of exactly that prefix, and it never panics. -/
+theorem C01_refines (hW : World P cfg env G inp) {n cr res evs o s'}
+    (hfind : P.find n = some cr) (hev : Eval G cfg.rho inp (.name n) 0 res evs)
+    (hrun : Exec P cfg inp cr 0 St.init Frame.empty (o, s')) :
+    (o = .ret true ↔ ∃ p' f, res = .ok p' f) ∧ (∀ p' f, res = .ok p' f → s'.pos = p') ∧
+    (o = .ret false ↔ res = .fail) ∧ o ≠ .panic := by
+  have h := R_rule_all hW hfind hev rfl (Nat.zero_le _) (by simp [St.init]) (by simp [St.init]) hrun
+  cases res with
+  | ok p' f =>
+    obtain ⟨h1, h2, _⟩ := h
+    subst h1
+    refine ⟨⟨fun _ => ⟨p', f, rfl⟩, fun _ => rfl⟩, ?_, ⟨?_, ?_⟩, ?_⟩
+    · intro p'' f'' e; cases e; exact h2
+    · intro e; cases e
+    · intro e; cases e
+    · intro e; cases e
+  | fail =>
+    obtain ⟨h1, _⟩ := h
+    subst h1
+    refine ⟨⟨?_, ?_⟩, ?_, ⟨fun _ => rfl, fun _ => rfl⟩, ?_⟩
+    · intro e; cases e
+    · rintro ⟨_, _, e⟩; cases e
+    · intro _ _ e; cases e
+    · intro e; cases e
+
+/-- The same from any admissible state and position (rule functions called in the middle of a
+    parse, entry by any rule constant). -/
+theorem C01_refines_anywhere (hW : World P cfg env G inp) {n cr p res evs s o s'}
+    (hfind : P.find n = some cr) (hev : Eval G cfg.rho inp (.name n) p res evs)
+    (hpos : s.pos = p) (hple : p ≤ inp.length) (hlen : s.ti ≤ s.tree.length) (hm : s.memo = [])
+    (hrun : Exec P cfg inp cr 0 s Frame.empty (o, s')) : RuleSpec s p res evs o s' :=
+  R_rule_all hW hfind hev hpos hple hlen hm hrun
+
+/-- … and such a run exists (the emitted function terminates whenever the semantics does). -/
+theorem C01_run_exists (hW : World P cfg env G inp) {n cr res evs}
+    (hfind : P.find n = some cr) (hev : Eval G cfg.rho inp (.name n) 0 res evs) :
+    ∃ o s', Exec P cfg inp cr 0 St.init Frame.empty (o, s') :=
+  let ⟨o, s', h, _⟩ := R_rule hW hfind hev rfl (Nat.zero_le _) (by simp [St.init]) (by simp [St.init])
+  ⟨o, s', h⟩
+
+/-- The executable model used by the T-run tie obeys the theorem (it is not a separate artefact). -/
+theorem C01_parseF (hW : World P cfg env G inp) {n cr res evs fuel pr st}
+    (hfind : P.find n = some cr) (hev : Eval G cfg.rho inp (.name n) 0 res evs)
+    (hrun : parseF P cfg inp fuel n St.init = (pr, st)) (hfuel : pr ≠ .stuck) :
+    match res with
+    | .ok p' forest => pr = .ok (postorderL forest) ∧ st.pos = p'
+    | .fail => pr = .fail (evs.foldl updTok zeroTok) :=
+  R_parseF hW hfind hev hrun hfuel
+
+/-! Non-vacuity: a grammar using sequence, choice, `*`, `!`, rule reference and a capture has
+    derivations, found by the interpreter and certified by `C01_oracle_sound`. -/
+def exG : Grammar := { rules := [
+  { name := "S", id := 0, body := .ipush (.seq [.star (.alt [.name "A", .chr 98]), .peekNot .dot]) "S" },
+  { name := "A", id := 1, body := .ipush (.push (.chr 97) "PegText") "A" }] }
+
+example : ∃ f evs, Eval exG (fun _ _ => true) [97, 98, 97] (.name "S") 0 (.ok 3 f) evs :=
+  ⟨_, _, evalF_sound 20 _ _ _ _ (by rfl)⟩
+
+example : ∃ evs, Eval exG (fun _ _ => true) [97, 99] (.name "S") 0 .fail evs :=
+  ⟨_, evalF_sound 20 _ _ _ _ (by rfl)⟩
 
 end PegVerif
 
 #print axioms PegVerif.C01_semantics_deterministic
 #print axioms PegVerif.C01_oracle_sound
+#print axioms PegVerif.C01_refines
+#print axioms PegVerif.C01_refines_anywhere
+#print axioms PegVerif.C01_run_exists
+#print axioms PegVerif.C01_parseF
